@@ -12,7 +12,14 @@ import (
 	"testing"
 
 	"github.com/bilibili/smgo/zzverif/hk"
+	"github.com/klauspost/cpuid/v2"
 )
+
+// cpuHasDocumentedFeatures asks the CPU directly (not the library) for every feature the pinned selection
+// predicate of the accelerated amd64 path names.
+func cpuHasDocumentedFeatures() bool {
+	return cpuid.CPU.Supports(cpuid.AVX512F, cpuid.AVX512DQ, cpuid.AVX512VL, cpuid.AVX, cpuid.GFNI, cpuid.SSE3, cpuid.SSE2, cpuid.VPCLMULQDQ)
+}
 
 // C09 — PATH monitor for the public API. The single-step traces judge the assembly routines; this
 // workload judges which routines serve the PUBLIC methods when the accelerated path is selected.
@@ -48,10 +55,17 @@ func TestVtracePublicPaths(t *testing.T) {
 		f.Write(append(data, '\n'))
 		return id
 	}
-	if !asmDetected {
+	if !asmDetected && !cpuHasDocumentedFeatures() {
 		data, _ := json.Marshal(map[string]interface{}{"id": 0, "op": "not-applicable", "shape": "accelerated path not available on this CPU", "end": true})
 		f.Write(append(data, '\n'))
 		return
+	}
+	if !asmDetected {
+		// The README promises the constant-time implementation on amd64 CPUs with AVX512F and GFNI; this CPU reports
+		// every feature the pinned selection predicate names, and the library still does not select it. The
+		// workload runs all the same: whatever serves the public operations is what a user of this CPU gets.
+		data, _ := json.Marshal(map[string]interface{}{"id": 1 << 40, "op": "selection", "shape": "the CPU reports AVX512F, AVX512DQ, AVX512VL, AVX, GFNI, SSE2, SSE3, VPCLMULQDQ (the README names AVX512F and GFNI as the condition for the constant-time implementation) but the library's own selection says the accelerated path is unavailable"})
+		f.Write(append(data, '\n'))
 	}
 	runtime.LockOSThread()
 	debug.SetGCPercent(-1)
